@@ -251,7 +251,7 @@ func (e *Engine) loadPtr(st *State, p *Ptr) Val {
 
 // loaded adds well-formedness facts about a value read from the heap
 func (e *Engine) loaded(st *State, v Val) Val {
-	if v.K != kTerm {
+	if v.K != kTerm || e.specEval > 0 {
 		return v
 	}
 	switch v.Typ.Underlying().(type) {
